@@ -896,6 +896,9 @@ impl Range {
                 content_range.body = mutable_body;
 
                 content_range_list.push(content_range);
+            } else if content_range_is_parsed || content_type_is_parsed {
+                // a part that has only one of its two headers (or ends inside its headers) is not dropped silently
+                return Err("Part of the multipart/byteranges body needs both Content-Type and Content-Range".to_string());
             }
 
         }
